@@ -52,11 +52,11 @@ func openDB(c *fw.Ctx, name string) (*db, error) {
 }
 
 // setup creates the tables and the initial rows, in the engine and in the model.
-func setup(d *db, r interface{ IntN(int) int }, variant int) (*m.DB, error) {
+func setup(d *db, r interface{ IntN(int) int }, variant int, multi bool) (*m.DB, error) {
 	init := m.NewDB()
 	tx := m.Begin(init, false)
 	ctx := context.Background()
-	for _, s := range schemas(variant) {
+	for _, s := range schemas(variant, multi) {
 		d.sch[s.Name] = s
 		st := &m.Stmt{Kind: m.Create, Schema: s}
 		if _, _, err := d.eng.Exec(ctx, nil, st.SQL(nil), nil); err != nil {
@@ -119,12 +119,12 @@ func engineCase(c *fw.Ctx, data []byte) {
 		return
 	}
 	defer d.st.Close()
-	init, err := setup(d, r, cs.Variant)
+	init, err := setup(d, r, cs.Variant, cs.Sessions > 1)
 	if err != nil {
 		c.Inconclusive("setup: " + err.Error())
 		return
 	}
-	sch := schemas(cs.Variant)
+	sch := schemas(cs.Variant, cs.Sessions > 1)
 	progs := make([][]*txProg, cs.Sessions)
 	for s := range progs {
 		sr := fw.NewRand(c.Seed, fmt.Sprintf("c13/%s/session%d", tag, s))
